@@ -509,6 +509,10 @@ func (e *encodeState) string(s string, escapeHTML bool) {
 			switch b {
 			case '\\', '"':
 				e.WriteByte(b)
+			case '\b':
+				e.WriteByte('b')
+			case '\f':
+				e.WriteByte('f')
 			case '\n':
 				e.WriteByte('n')
 			case '\r':
@@ -516,7 +520,7 @@ func (e *encodeState) string(s string, escapeHTML bool) {
 			case '\t':
 				e.WriteByte('t')
 			default:
-				// This encodes bytes < 0x20 except for \t, \n and \r.
+				// This encodes bytes < 0x20 except for \b, \f, \n, \r and \t.
 				// If escapeHTML is set, it also escapes <, >, and &
 				// because they can lead to security holes when
 				// user-controlled strings are rendered into JSON
@@ -581,6 +585,10 @@ func (e *encodeState) stringBytes(s []byte, escapeHTML bool) {
 			switch b {
 			case '\\', '"':
 				e.WriteByte(b)
+			case '\b':
+				e.WriteByte('b')
+			case '\f':
+				e.WriteByte('f')
 			case '\n':
 				e.WriteByte('n')
 			case '\r':
@@ -588,7 +596,7 @@ func (e *encodeState) stringBytes(s []byte, escapeHTML bool) {
 			case '\t':
 				e.WriteByte('t')
 			default:
-				// This encodes bytes < 0x20 except for \t, \n and \r.
+				// This encodes bytes < 0x20 except for \b, \f, \n, \r and \t.
 				// If escapeHTML is set, it also escapes <, >, and &
 				// because they can lead to security holes when
 				// user-controlled strings are rendered into JSON
